@@ -735,7 +735,10 @@ Definition run_C02_opt (t : str) (o : ropts) (header : str) : val :=
       let x := map copy_attrs_in x0 in
       match write_gff_hdr header x with
       | None => VL [VB false; VB false; VE e_type]
-      | Some w => VL [VB (wfh_C02 x); VB (rt_C02 x); VL [v_feats x; VL (map VS cm); VS w]]
+      | Some w => VL [VB (wfh_C02 x); VB (rt_C02 x);
+                      VL [v_feats x; VL (map VS cm); VS w;
+                          (* the written text, header included, read again: a header that is no comment is data to the reader *)
+                          match read_gff w with Some xb => v_feats xb | None => VE e_value end]]
       end
   end.
 (* op 1: abstract features (as given to the Feature constructor) -> write, read, ... *)
@@ -1005,3 +1008,76 @@ Definition run_C02_xsvr (sep : byte) (ft : option str) (t : str) : val :=
                 | None => true
                 end in
   VL [VB dom; VB dom; v_xres (read_xsv sep ft t)].
+
+(* ================================================================== read_fts / write_fts dispatch (main.py:364-394, 444-478; round 7)
+   fmt is lower-cased and looked up among the registered feature formats; without fmt the writer takes the format whose
+   extension list holds the text after the last '.' of the file name, compared as it is (detect_ext, main.py:104-121) *)
+Inductive ffmt := FGff | FTsv | FCsv.
+Definition fmt_name (f : ffmt) : str := match f with FGff => bs "gff"%bs | FTsv => bs "tsv"%bs | FCsv => bs "csv"%bs end.
+Definition fmt_of_lower (l : str) : option ffmt :=
+  if str_eqb l (bs "gff"%bs) then Some FGff else if str_eqb l (bs "tsv"%bs) then Some FTsv
+  else if str_eqb l (bs "csv"%bs) then Some FCsv else None.
+Definition fmt_key (s : str) : option ffmt := fmt_of_lower (lower s).
+Fixpoint ext_name (tab : list (str * list str)) (e : str) : option str :=
+  match tab with
+  | [] => None
+  | (f, exts) :: r => if existsb (str_eqb e) exts then Some f else ext_name r e
+  end.
+Definition registered (s : str) : bool := existsb (fun p => str_eqb (lower s) (fst p)) fts_exts.
+Definition default_sep (f : ffmt) : byte := match f with FCsv => ","%byte | _ => x09 end.
+(* the format a write resolves to: Some f, or the exception class *)
+Definition resolve_w (fmt : option str) (ext : str) : ffmt + str :=
+  match fmt with
+  | Some s => match fmt_key s with Some f => inl f | None => inr (bs "KeyError"%bs) end
+  | None => match ext_name fts_exts ext with
+            | Some n => match fmt_of_lower n with Some f => inl f | None => inr (bs "Other"%bs) end
+            | None => inr (bs "OSError"%bs)
+            end
+  end.
+Definition write_fts_m (fmt : option str) (ext : str) (sepo : option byte) (names : list str) (x : list feat) : str + str :=
+  match resolve_w fmt ext with
+  | inr e => inr e
+  | inl FGff => match write_gff_h x with Some w => inl w | None => inr e_type end
+  | inl f => inl (write_xsv (match sepo with Some c => c | None => default_sep f end) names x)
+  end.
+(* read_fts(f, fmt): the records / features and the value of meta._fmt *)
+Definition read_fts_m (fmt : str) (sepo : option byte) (t : str) : val :=
+  match fmt_key fmt with
+  | None => VE (bs "KeyError"%bs)
+  | Some FGff => match read_gff t with Some x => VL [VS (fmt_name FGff); v_feats x] | None => VE e_value end
+  | Some f => match read_xsv (match sepo with Some c => c | None => default_sep f end) None t with
+              | inr l => VL [VS (fmt_name f); v_xrecs l]
+              | inl e => e
+              end
+  end.
+(* op 9: write with fmt (any spelling) or by extension, read with rfmt (any spelling) *)
+Definition run_C02_disp (fmt : option str) (ext : str) (rfmt : str) (sepo : option byte) (names : list str) (x : list feat) : val :=
+  match map_opt mk_feature x with
+  | None => VL [VB false; VB false; VE e_value]
+  | Some x' =>
+      let known := match fmt with Some s => negb (registered s) || match fmt_key s with Some _ => true | None => false end | None => true end
+                   && (negb (registered rfmt) || match fmt_key rfmt with Some _ => true | None => false end) in
+      match write_fts_m fmt ext sepo names x' with
+      | inr e => VL [VB (known && negb (str_eqb e (bs "Other"%bs))); VB false; VE e]
+      | inl t =>
+          let sepw := match sepo, resolve_w fmt ext with Some c, _ => c | None, inl f => default_sep f | None, inr _ => x09 end in
+          (* the written text is compared byte for byte: inside the GFF domain / the unquoted cell grid *)
+          let wclean := match resolve_w fmt ext with
+                        | inl FGff => wfh_C02 x'
+                        | inl _ => sep_ok sepw && names_ok sepw names && negb (Nat.eqb (length names) 0)
+                                   && forallb (feat_clean sepw names) x' && forallb (feat_texty names) x'
+                                   && negb (forallb (str_eqb n_len) names)
+                        | inr _ => false
+                        end in
+          (* read with the format it was written in (any spelling), or with a name that is no format at all *)
+          let same := match resolve_w fmt ext, fmt_key rfmt with
+                      | inl _, None => true
+                      | inl FGff, Some FGff => true
+                      | inl FGff, Some _ => false
+                      | inl _, Some FGff => false
+                      | inl _, Some g => byte_eqb sepw (match sepo with Some c => c | None => default_sep g end)
+                      | inr _, _ => false
+                      end in
+          VL [VB (known && wclean && same); VB false; VL [VS t; read_fts_m rfmt sepo t]]
+      end
+  end.
